@@ -162,7 +162,7 @@ def classify_key(a, tl, js, py):
     return 'bucket-value-differs'
 
 
-def judge_pairs(rec, pairs, flows, py_pairs=None, label=''):
+def judge_pairs(rec, pairs, flows, py_pairs=None, label='', py_excluded=None):
     tally = core.import_tally()
     from tally import classification as cl
     node = shutil.which('node') or shutil.which('nodejs')
@@ -192,6 +192,8 @@ def judge_pairs(rec, pairs, flows, py_pairs=None, label=''):
         rec.case()
         rec.count('js_pairs_evaluated')
         py = py_side(cl, *(py_pairs[idx] if py_pairs is not None else (a, tl)))
+        if py_excluded is not None:
+            py['ex'] = py_excluded[idx]          # the decision the command-line analysis actually TOOK for this merchant (kept out of every spending view or not)
         rec.count('py_pairs_evaluated')
         tags = [] if tl in (None, 'MISSING') else tl
         specials = [x for x in tags if x.lower() in SPECIAL]
@@ -226,10 +228,14 @@ def report_level(rec, rnd, n):
     from tally import analyzer as A
     tmp = tempfile.mkdtemp(prefix='vt-c13r-')
     js_pairs, py_pairs = [], []
+    dec_js, dec_py, dec_ex = [], [], []
+    from tally.section_engine import parse_sections
+    everything = parse_sections('[Everything]\nfilter: true\n')
     try:
         for k in range(n):
             txns, _ = c12.gen_txns(rnd)
             stats = A.analyze_transactions(copy.deepcopy(txns))
+            listed = {name for name, _d in A.classify_by_sections(stats['by_merchant'], everything, num_months=stats.get('num_months', 12)).get('Everything', [])}
             path = os.path.join(tmp, 'r%d.html' % k)
             A.write_summary_file_vue(stats, path, year=2025, currency_format='${amount}', sources=['Amex'], embedded_html=True)
             data, err = c12.extract_data(open(path, encoding='utf-8').read())
@@ -244,11 +250,20 @@ def report_level(rec, rnd, n):
                         for tx in m['transactions'][:3]:
                             js_pairs.append((tx['amount'], list(m.get('tags') or [])))
                             py_pairs.append((tx['amount'], held))
+                        if m['displayName'] in stats['by_merchant']:
+                            # the decision as TAKEN by the command-line analysis: a merchant excluded from spending is in no view, every other merchant is in [Everything]
+                            dec_js.append((1.0, list(m.get('tags') or [])))
+                            dec_py.append((1.0, held))
+                            dec_ex.append(m['displayName'] not in listed)
     finally:
         shutil.rmtree(tmp, ignore_errors=True)
     rec.count('report_level_pairs', len(js_pairs))
     if js_pairs:
         judge_pairs(rec, js_pairs, [], py_pairs=py_pairs, label=':tags-as-delivered-by-the-report')
+    rec.count('excluded_decisions_taken_by_the_analysis', len(dec_js))
+    rec.count('merchants_kept_out_of_views', sum(dec_ex))
+    if dec_js:
+        judge_pairs(rec, dec_js, [], py_pairs=dec_py, label=':decision-taken-for-the-views', py_excluded=dec_ex)
 
 
 def run(rec, shard, nshards, t):
